@@ -46,7 +46,8 @@ pub fn parse_repeated_field<T: crate::traits::SwiftField>(
     tag: &str,
 ) -> Result<Option<Vec<T>>, ParseError> {
     let mut fields = Vec::new();
-    while let Ok(field) = parser.parse_field::<T>(tag) {
+    while parser.detect_field(tag) {
+        let field = parser.parse_field::<T>(tag)?;
         fields.push(field);
     }
     Ok(if fields.is_empty() {
